@@ -238,6 +238,16 @@ def run_spec(S, oracle_classes, wall=20, keep=False):
         res.update(status="violation", prop=v.prop, clause=v.clause, msg=v.msg)
     except StepCap:
         res.update(status="cap")
+        # the cap is hit between two events: the state is consistent, so history oracles still apply
+        try:
+            for o in R.oracles:
+                o.segment_end(("cap",))
+        except Violation as v:
+            res.update(status="violation", prop=v.prop, clause=v.clause, msg=v.msg)
+        except Exception as e:
+            who, site = classify_exception(e)
+            res.update(status="harness", clause=site,
+                       msg="".join(traceback.format_exception(type(e), e, e.__traceback__))[-3000:])
     except OutOfDomain as e:
         res.update(status="discard", msg=str(e))
     except Hang:
